@@ -17,7 +17,7 @@ Lemma nth_map_fst {A B} (l : list (A * B)) i a b : nth_error l i = Some (a, b) -
 Proof. revert i; induction l as [|x l IH]; intros [|i] H; simpl in *; try discriminate; [inversion H; subst; reflexivity | eauto]. Qed.
 
 (* every step of the extended machine is, on the metric state and the metric clients, either nothing or one step of
-   the metric machine: auxiliary threads and markDirty cannot be seen from the metric side *)
+   the metric machine: auxiliary threads, markDirty and the tombstone Once cannot be seen from the metric side *)
 Lemma xsys_step_metric c mode x e :
   metric_of (xsys_step c mode x e) = metric_of x \/ exists i, metric_of (xsys_step c mode x e) = sys_step c (metric_of x) i.
 Proof.
@@ -29,6 +29,9 @@ Proof.
       unfold metric_of, sys_step; simpl. rewrite (nth_map_fst _ _ _ _ G), F, St. rewrite map_fst_upd. reflexivity.
     + left. unfold metric_of; simpl. rewrite (map_fst_upd_same _ _ _ _ G). reflexivity.
     + left. unfold metric_of; simpl. rewrite (map_fst_upd_same _ _ _ _ G). reflexivity.
+    + left. unfold metric_of; simpl. rewrite (map_fst_upd_same _ _ _ _ G). reflexivity.
+    + left. destruct (ss_once (x_ss x)) as [|[|n]]; [|reflexivity|];
+        unfold metric_of; simpl; rewrite (map_fst_upd_same _ _ _ _ G); reflexivity.
     + left. unfold metric_of; simpl. rewrite (map_fst_upd_same _ _ _ _ G). reflexivity.
   - destruct (nth_error (x_aux x) i) as [a|]; [|left; reflexivity].
     destruct (xstep_aux mode (x_sh x) (x_ss x) a) as [[ss' a']|]; left; reflexivity.
@@ -52,49 +55,202 @@ Proof.
   apply andb_true_iff in H as [H _]. exact H.
 Qed.
 
-(* ---- no step of the code is ever disabled ---- *)
-Lemma aux_always_enabled s ss a : xstep_aux SelectDefault s ss a <> None.
+(* ---- what can block, and on what ---- *)
+(* an auxiliary step of the code (select/default send) is disabled ONLY when it is tickMu.Lock() and the mutex is held:
+   never because of a full channel, a never-reading subscriber, an emitter or the metric state *)
+Lemma aux_blocked_only_on_tickmu s ss a :
+  xstep_aux SelectDefault s ss a = None -> ss_mu ss = true /\ (a_pc a = SSub2 \/ a_pc a = SUn4).
 Proof.
   unfold xstep_aux. destruct (a_pc a); try discriminate.
   - destruct (a_prog a) as [|o r]; [discriminate|]. destruct o; try discriminate.
     + destruct (nth_error (ss_subs ss) k) as [b|]; [destruct (sb_unsub b)|]; discriminate.
     + destruct (ss_dirty ss); discriminate.
     + destruct (nth_error (ss_subs ss) k); discriminate.
-  - destruct ids; discriminate.
+  - destruct (ss_mu ss); [auto | discriminate].
+  - destruct (ss_nsubs ss =? 0); discriminate.
+  - destruct (ss_mu ss); [auto | discriminate].
+  - destruct (next_entry (smap s) cur None) as [[k id]|]; discriminate.
   - destruct work as [|k r]; [discriminate|]. destruct (nth_error (ss_subs ss) k); discriminate.
-  - destruct ids; discriminate.
+  - destruct (next_entry (smap s) cur None) as [[k id]|]; discriminate.
+Qed.
+(* a client step is disabled ONLY inside tombstoneOnce.Do while ANOTHER CLIENT runs the initialiser: never because of a
+   subscriber, a channel, the tick, a snapshot or tickMu *)
+Lemma client_blocked_only_on_once c s ss cl :
+  xstep_client c s ss cl = None -> snd cl = O1 /\ ss_once ss = 1%nat.
+Proof.
+  destruct cl as [th m]. unfold xstep_client. destruct m; try discriminate.
+  - destruct (finished th); [discriminate|]. destruct (tstep c s th); discriminate.
+  - destruct (ss_once ss) as [|[|n]]; try discriminate. auto.
+Qed.
+
+Definition lsum {A} (f : A -> Z) (l : list A) : Z := fold_right (fun a acc => f a + acc) 0 l.
+Lemma lsum_upd {A} (f : A -> Z) l i a a' : nth_error l i = Some a -> lsum f (upd_nth l i (fun _ => a')) = lsum f l - f a + f a'.
+Proof.
+  revert i; induction l as [|x l IH]; intros [|i]; simpl; try discriminate.
+  - intros H; inversion H; subst. lia.
+  - intros H. rewrite (IH _ H). lia.
+Qed.
+Lemma lsum_pos {A} (f : A -> Z) l : (forall a, 0 <= f a) -> 0 < lsum f l -> exists i a, nth_error l i = Some a /\ 0 < f a.
+Proof.
+  intros Hf. induction l as [|x l IH]; simpl; [lia|]. intros H.
+  destruct (Z_lt_le_dec 0 (f x)); [exists 0%nat, x; auto|].
+  destruct IH as [i [a [G P]]]; [specialize (Hf x); lia|]. exists (S i), a. auto.
+Qed.
+
+(* threads inside the tickMu critical section / inside the Once initialiser *)
+Definition crit (a : auxthread) : Z := match a_pc a with SSub3 | SSub4 | SUn5 | SUn6 => 1 | _ => 0 end.
+Definition inonce (cl : thread * mpc) : Z := match snd cl with O2 => 1 | _ => 0 end.
+Record LockInv (x : xsys) : Prop := {
+  li_mu : lsum crit (x_aux x) = if ss_mu (x_ss x) then 1 else 0;
+  li_once : lsum inonce (x_cl x) = if Nat.eqb (ss_once (x_ss x)) 1 then 1 else 0 }.
+
+Lemma lsum_nonneg {A} (f : A -> Z) l : (forall a, 0 <= f a) -> 0 <= lsum f l.
+Proof. intros Hf. induction l as [|x l IH]; simpl; [lia | specialize (Hf x); lia]. Qed.
+Lemma lsum_ge {A} (f : A -> Z) l i a : (forall a, 0 <= f a) -> nth_error l i = Some a -> f a <= lsum f l.
+Proof.
+  intros Hf. revert i; induction l as [|x l IH]; intros [|i]; simpl; try discriminate.
+  - intros H; inversion H; subst. pose proof (lsum_nonneg f l Hf). lia.
+  - intros H. specialize (IH _ H). specialize (Hf x). lia.
+Qed.
+Lemma crit_nonneg a : 0 <= crit a. Proof. unfold crit; destruct (a_pc a); lia. Qed.
+Lemma inonce_nonneg cl : 0 <= inonce cl. Proof. unfold inonce; destruct (snd cl); lia. Qed.
+
+Definition b2z (b : bool) : Z := if b then 1 else 0.
+
+Lemma aux_step_locks mode s ss a ss' a' :
+  (crit a = 1 -> ss_mu ss = true) -> xstep_aux mode s ss a = Some (ss', a') ->
+  ss_once ss' = ss_once ss /\ crit a' - crit a = b2z (ss_mu ss') - b2z (ss_mu ss).
+Proof.
+  intros Hc H. unfold xstep_aux in H. unfold crit in *.
+  destruct (a_pc a) eqn:Epc; try (specialize (Hc eq_refl));
+    repeat match type of H with
+           | context [match ?x with _ => _ end] => destruct x eqn:?
+           | context [if ?x then _ else _] => destruct x eqn:?
+           end; inversion H; subst; simpl; rewrite ?Epc; simpl; split; try reflexivity;
+    unfold b2z; try (rewrite Hc by reflexivity); try (destruct (ss_mu ss)); try lia; try discriminate.
+Qed.
+
+Lemma client_step_locks c s ss cl s' ss' cl' :
+  (inonce cl = 1 -> ss_once ss = 1%nat) -> xstep_client c s ss cl = Some (s', ss', cl') ->
+  ss_mu ss' = ss_mu ss /\ inonce cl' - inonce cl = b2z (Nat.eqb (ss_once ss') 1) - b2z (Nat.eqb (ss_once ss) 1).
+Proof.
+  intros Hc H. destruct cl as [th m]. unfold xstep_client in H. unfold inonce in *. simpl in *.
+  destruct m; try (specialize (Hc eq_refl));
+    repeat match type of H with
+           | context [let (_, _) := tstep ?c ?s ?t in _] => destruct (tstep c s t) eqn:?
+           | context [match ?x with _ => _ end] => destruct x eqn:?
+           | context [if ?x then _ else _] => destruct x eqn:?
+           end; inversion H; subst; simpl; split; try reflexivity; unfold b2z; try (rewrite Hc by reflexivity); simpl; try lia;
+    try (destruct (Nat.eqb (ss_once ss) 1); lia);
+    try (rewrite Heqn; simpl; lia).
+Qed.
+
+Lemma xsys_step_lockinv c mode x e : LockInv x -> LockInv (xsys_step c mode x e).
+Proof.
+  intros [L1 L2]. destruct e as [[|] i]; unfold xsys_step.
+  - destruct (nth_error (x_cl x) i) as [cl|] eqn:G; [|constructor; auto].
+    destruct (xstep_client c (x_sh x) (x_ss x) cl) as [[[s' ss'] cl']|] eqn:St; [|constructor; auto].
+    assert (Hc : inonce cl = 1 -> ss_once (x_ss x) = 1%nat).
+    { intros E. pose proof (lsum_ge inonce _ _ _ inonce_nonneg G) as Ge. rewrite L2 in Ge.
+      destruct (Nat.eqb_spec (ss_once (x_ss x)) 1); [assumption | lia]. }
+    destruct (client_step_locks _ _ _ _ _ _ _ Hc St) as [M D]. constructor; simpl.
+    + rewrite M. exact L1.
+    + rewrite (lsum_upd _ _ _ _ cl' G). unfold b2z in D. lia.
+  - destruct (nth_error (x_aux x) i) as [a|] eqn:G; [|constructor; auto].
+    destruct (xstep_aux mode (x_sh x) (x_ss x) a) as [[ss' a']|] eqn:St; [|constructor; auto].
+    assert (Hc : crit a = 1 -> ss_mu (x_ss x) = true).
+    { intros E. pose proof (lsum_ge crit _ _ _ crit_nonneg G) as Ge. rewrite L1 in Ge. destruct (ss_mu (x_ss x)); [reflexivity | lia]. }
+    destruct (aux_step_locks _ _ _ _ _ _ Hc St) as [O D]. constructor; simpl.
+    + rewrite (lsum_upd _ _ _ _ a' G). unfold b2z in D. lia.
+    + rewrite O. exact L2.
+Qed.
+
+Lemma xrun_lockinv c mode sched : forall x, LockInv x -> LockInv (xrun c mode x sched).
+Proof. induction sched as [|e r IH]; intros x H; simpl; [exact H|]. apply IH. apply xsys_step_lockinv. exact H. Qed.
+
+Lemma LockInv0 progs aprogs : LockInv (xsys0 progs aprogs).
+Proof.
+  assert (Z1 : forall l : list (list sop), lsum crit (map auxthread0 l) = 0).
+  { induction l as [|p l IH]; [reflexivity|]. change (lsum crit (map auxthread0 (p :: l))) with (crit (auxthread0 p) + lsum crit (map auxthread0 l)). rewrite IH. reflexivity. }
+  assert (Z2 : forall l : list (list op), lsum inonce (map (fun p => (thread0 p, MNone)) l) = 0).
+  { induction l as [|p l IH]; [reflexivity|]. change (lsum inonce (map (fun p => (thread0 p, MNone)) (p :: l))) with (inonce (thread0 p, MNone) + lsum inonce (map (fun p => (thread0 p, MNone)) l)). rewrite IH. reflexivity. }
+  constructor; simpl; [apply Z1 | apply Z2].
+Qed.
+
+(* no deadlock on the two blocking primitives: whenever tickMu is held, its holder is an auxiliary thread inside the
+   critical section, its next step is enabled whatever the send mode, and it releases the mutex after at most two own
+   steps; whenever the Once initialiser is running, the client running it is enabled and finishes it with its next step *)
+Lemma mu_holder_enabled c mode progs aprogs sched :
+  let x := xrun c mode (xsys0 progs aprogs) sched in
+  ss_mu (x_ss x) = true ->
+  exists j a, nth_error (x_aux x) j = Some a /\ crit a = 1 /\
+    (forall md, exists ss' a', xstep_aux md (x_sh x) (x_ss x) a = Some (ss', a') /\
+                               (ss_mu ss' = false \/ (crit a' = 1 /\ forall s2 ss2 md2, ss_mu ss2 = true ->
+                                  exists ss3 a3, xstep_aux md2 s2 ss2 a' = Some (ss3, a3) /\ ss_mu ss3 = false))).
+Proof.
+  intros x M. pose proof (xrun_lockinv c mode sched _ (LockInv0 progs aprogs)) as [L1 _]. fold x in L1. rewrite M in L1.
+  assert (Pos : 0 < lsum crit (x_aux x)) by (rewrite L1; lia).
+  destruct (lsum_pos crit _ crit_nonneg Pos) as [j [a [G P]]]. exists j, a. split; [exact G|].
+  unfold crit in *. destruct (a_pc a) eqn:Epc; try lia; (split; [reflexivity|]); intros md; unfold xstep_aux; rewrite Epc;
+    do 2 eexists; (split; [reflexivity|]); simpl.
+  - right. split; [reflexivity|]. intros s2 ss2 md2 _. unfold xstep_aux; simpl. do 2 eexists. split; reflexivity.
+  - left. reflexivity.
+  - right. split; [reflexivity|]. intros s2 ss2 md2 _. unfold xstep_aux; simpl. do 2 eexists. split; reflexivity.
+  - left. reflexivity.
+Qed.
+
+Lemma once_runner_enabled c mode progs aprogs sched :
+  let x := xrun c mode (xsys0 progs aprogs) sched in
+  ss_once (x_ss x) = 1%nat ->
+  exists i cl, nth_error (x_cl x) i = Some cl /\ snd cl = O2 /\
+    exists s' ss' cl', xstep_client c (x_sh x) (x_ss x) cl = Some (s', ss', cl') /\ ss_once ss' = 2%nat.
+Proof.
+  intros x M. pose proof (xrun_lockinv c mode sched _ (LockInv0 progs aprogs)) as [_ L2]. fold x in L2. rewrite M in L2. simpl in L2.
+  assert (Pos : 0 < lsum inonce (x_cl x)) by (rewrite L2; lia).
+  destruct (lsum_pos inonce _ inonce_nonneg Pos) as [i [[th m] [G P]]]. exists i, (th, m). split; [exact G|].
+  unfold inonce in P. simpl in P. destruct m; try lia. split; [reflexivity|]. simpl. do 3 eexists. split; reflexivity.
 Qed.
 
 (* ---- emitters and subscribers do not interfere ---- *)
-(* a client step never reads the subscribers' channels: its effect depends on the subscription state only through
-   subscriberCount and the dirty flag, and it writes nothing but the dirty flag *)
+(* a client step never reads the subscribers' channels, tickMu or tickRunning: its enabledness and its effect depend on the
+   subscription-side state only through subscriberCount, the dirty flag and the tombstone Once, and it writes only the
+   latter two *)
 Lemma client_ignores_channels c s ss1 ss2 cl :
-  ss_nsubs ss1 = ss_nsubs ss2 -> ss_dirty ss1 = ss_dirty ss2 ->
-  let '(s1, ss1', cl1) := xstep_client c s ss1 cl in
-  let '(s2, ss2', cl2) := xstep_client c s ss2 cl in
-  s1 = s2 /\ cl1 = cl2 /\ ss_dirty ss1' = ss_dirty ss2' /\
-  ss_subs ss1' = ss_subs ss1 /\ ss_nsubs ss1' = ss_nsubs ss1 /\ ss_subs ss2' = ss_subs ss2.
+  ss_nsubs ss1 = ss_nsubs ss2 -> ss_dirty ss1 = ss_dirty ss2 -> ss_once ss1 = ss_once ss2 ->
+  match xstep_client c s ss1 cl, xstep_client c s ss2 cl with
+  | Some (s1, ss1', cl1), Some (s2, ss2', cl2) =>
+      s1 = s2 /\ cl1 = cl2 /\ ss_dirty ss1' = ss_dirty ss2' /\ ss_once ss1' = ss_once ss2' /\
+      ss_subs ss1' = ss_subs ss1 /\ ss_nsubs ss1' = ss_nsubs ss1 /\ ss_mu ss1' = ss_mu ss1 /\ ss_running ss1' = ss_running ss1
+  | None, None => True
+  | _, _ => False
+  end.
 Proof.
-  intros En Ed. destruct cl as [th m]. unfold xstep_client. destruct m.
+  intros En Ed Eo. destruct cl as [th m]. unfold xstep_client. destruct m.
   - destruct (finished th); [repeat split; auto|]. destruct (tstep c s th) as [s' th']. repeat split; auto.
   - rewrite En. repeat split; auto.
   - rewrite Ed. repeat split; auto.
-  - repeat split; auto.
+  - repeat split; simpl; auto.
+  - rewrite Eo. destruct (ss_once ss2) as [|[|n]] eqn:E2; repeat split; simpl; auto; congruence.
+  - repeat split; simpl; auto.
 Qed.
 
-(* own steps of a client strictly decrease a bound that depends on the client alone (markDirty adds at most 3 steps) *)
-Definition mcost (m : mpc) : nat := match m with MNone => 0 | M1 => 3 | M2 => 2 | M3 => 1 end%nat.
+(* own steps of a client strictly decrease a bound that depends on the client alone (markDirty adds at most 3 steps,
+   the tombstone Once at most 2); MODEL-LEVEL: Observe / gauge Add are one step here, CAS loops in Go *)
+Definition mcost (m : mpc) : nat := match m with MNone => 0 | M1 => 3 | M2 => 2 | M3 => 1 | O1 => 2 | O2 => 1 end%nat.
 Definition xbudget (cl : thread * mpc) : nat := (4 * budget (fst cl) + mcost (snd cl))%nat.
-Lemma client_progress c s ss cl :
+Lemma client_progress c s ss cl s' ss' cl' :
   (finished (fst cl) && match snd cl with MNone => true | _ => false end) = false ->
-  (xbudget (snd (xstep_client c s ss cl)) < xbudget cl)%nat.
+  xstep_client c s ss cl = Some (s', ss', cl') -> (xbudget cl' < xbudget cl)%nat.
 Proof.
   destruct cl as [th m]. unfold xstep_client, xbudget. simpl. destruct m; simpl.
   - rewrite andb_true_r. intros F. rewrite F. pose proof (tstep_progress c s th F) as P.
-    destruct (tstep c s th) as [s' th']. simpl in *. destruct (lands s th); simpl; lia.
-  - intros _. destruct (ss_nsubs ss =? 0); simpl; lia.
-  - intros _. destruct (ss_dirty ss); simpl; lia.
-  - intros _. lia.
+    destruct (tstep c s th) as [s1 th1]. simpl in *. intros H; inversion H; subst; simpl.
+    destruct (lands s th); simpl; [lia|]. destruct (got_tomb th th1); simpl; lia.
+  - intros _ H; inversion H; subst; simpl. match goal with |- context [if ?b then _ else _] => destruct b end; simpl; lia.
+  - intros _ H; inversion H; subst; simpl. match goal with |- context [if ?b then _ else _] => destruct b end; simpl; lia.
+  - intros _ H; inversion H; subst; simpl. lia.
+  - intros _ H. destruct (ss_once ss) as [|[|n]]; inversion H; subst; simpl; lia.
+  - intros _ H; inversion H; subst; simpl. lia.
 Qed.
 
 (* ---- the metric theorems hold in the presence of any subscribe / tick / snapshot activity ---- *)
